@@ -443,6 +443,11 @@ func (w *World) kubeletStatus(c *Container, ip string) {
 		} else {
 			st["podIP"] = ip
 			st["phase"] = "Running"
+			if w.C.Prob(1, 3) {
+				// the sandbox is up and has its IP, but init containers / image pulls keep the pod Pending
+				st["phase"] = "Pending"
+				w.S.Stat("probe.pod-pending-with-ip")
+			}
 			if w.prof.GC || w.prof.States {
 				// the pod's containers start in the new sandbox
 				kind := "running"
